@@ -18,6 +18,8 @@ modified-collections set).
         (same location class), under the status value the forward branch leaves behind (constant propagation of
         `_status_` into the closure's tests); a key-index mutation may instead be paired, in the same block, with an append
         to an undo list that the closure (or the caller's closure) replays.
+ REG    (also) the closure of a function that queues its object AFTER its nested operations is registered after them too: undo functions
+        are replayed in reverse registration order and pop the save queue, so registration order must equal queue order.
  SNAP   an undo closure restores from snapshots: a variable it reads is not a live alias (`v = setdata.added`) of a container the
         forward code mutates in place afterwards.
  STALE  an undo closure reads no variable that the forward code assigns inside a loop (it would see the value of the
@@ -216,12 +218,36 @@ def check_function(ctx, f, creates, only_cover_locs=None, prefix='C13'):
         detail = '' if ok else 'closure %s is defined but never appended to undo_funcs: the handler has nothing to replay and the object keeps ' \
                                'its new status / write bits / save-queue entry after the failed call' % c.name
         if ok and defn:
-            after = g.reach(defn, include_src=False)
-            late = [p for p in fail_points if p.id in after and not g.dominated(p, regs)]
-            # handlers' own `raise` is not a forward failure point
-            late = [p for p in late if not (isinstance(p.ast, ast.Raise) and p.ast.exc is None)]
+            # a failure point matters once the function has changed session state itself: from every own mutation that is not already preceded by
+            # the registration, no failure point (throw, or a call that receives undo_funcs) is reachable without passing the registration
+            own = [n for n in g.nodes if n.kind == 'stmt' and n.copy == '' and n.ast is not None and not isinstance(n.ast, (ast.FunctionDef, ast.AsyncFunctionDef, ast.ClassDef))
+                   and not (isinstance(n.ast, ast.Assign) and norm(n.ast.value) == 'SetData()') and any(True for _ in mutations(n.ast))]
+            fresh_ = fresh_object_vars(f)
+            own = [n for n in own if not all(base in fresh_ or (loc in ('count', 'set', 'addrem') and fresh_setdata_block(f, n.ast, base)) for loc, base, kind in mutations(n.ast))]
+            late = []
+            for m_ in own:
+                if g.dominated(m_, regs): continue
+                r_ = g.reach([m_], avoid=regs, include_src=False)
+                late += [(m_, p) for p in fail_points if p.id in r_ and not (isinstance(p.ast, ast.Raise) and p.ast.exc is None)
+                         and not isinstance(p.ast, ast.Assert)]          # `assert False` marks a path that cannot happen
             if late:
-                ok = False; detail = 'failure point at line %d (`%s`) can be reached before undo_funcs.append(%s)' % (late[0].lineno, head(late[0].ast, 60), c.name)
+                m_, p_ = late[0]
+                ok = False; detail = 'after the change at line %d (`%s`) the failure point at line %d (`%s`) can be reached before undo_funcs.append(%s): the change ' \
+                                     'would not be undone' % (m_.lineno, head(m_.ast, 50), p_.lineno, head(p_.ast, 50), c.name)
+            # undo functions are replayed in reverse order of registration, and the ones that put an object into the save queue take it out again with
+            # pop(): the registration order has to be the order of the queue appends.  So between the registration of this closure and the
+            # function's own append to the queue no nested operation (a call that receives undo_funcs) may run -- it would append and register
+            # in between, and the replay would pop the wrong object
+            pops_queue = any(isinstance(x, ast.Call) and isinstance(x.func, ast.Attribute) and x.func.attr == 'pop' and 'objects_to_save' in norm(x.func.value) for x in ast.walk(c.node))
+            q_apps = nodes_calling(g, lambda call: isinstance(call.func, ast.Attribute) and call.func.attr == 'append' and 'objects_to_save' in norm(call.func.value))
+            if ok and pops_queue and q_apps:
+                nested = [p for p in fail_points if any(any(dotted(a) == 'undo_funcs' for a in c2.args) or any(dotted(k.value) == 'undo_funcs' for k in c2.keywords) for c2 in p.calls())]
+                between = [p for p in nested if any(p.id in g.reach([rg], include_src=False) for rg in regs) and any(qa.id in g.reach([p], include_src=False) for qa in q_apps)]
+                ctx.ob(prefix + '-REG.undo-order-matches-queue-order', f, c.node, not between,
+                       '' if not between else 'the closure (it pops the save queue) is registered at line %d, the nested operation at line %d runs after that and before this '
+                       'function appends its own object to the queue: the nested operation queues and registers in between, so the reversed replay pops the wrong object '
+                       '(AssertionError in the undo instead of the original error, session left half-restored)' % (regs[0].lineno, between[0].lineno), node=c.node,
+                       expected='register the closure after the nested operations, immediately before the function changes and queues its own object')
         ctx.ob(prefix + '-REG.closure-registered-before-failure-points', f, c.node, ok, detail, expected='undo_funcs.append(%s)' % c.name)
         # ---------------------------------------------------------- STALE
         loop_vars = set()
@@ -361,6 +387,7 @@ def none_guard_ok(ctx, f, g, assign):
 
 
 MUTANTS = [
+    dict(id='C13-ro1', file='pony/orm/core.py', fn='Entity._delete_', old="                for cache_index, old_key in undo_list: cache_index[old_key] = obj\n\n            try:", new="                for cache_index, old_key in undo_list: cache_index[old_key] = obj\n\n            undo_funcs.append(undo_func)\n            try:", expect='C13-REG.undo-order'),
     dict(id='C13-sn1', file='pony/orm/core.py', fn='Set.__set__', old="            old_added = None if setdata.added is None else set(setdata.added)\n            old_removed = None if setdata.removed is None else set(setdata.removed)\n", new="            old_added, old_removed = setdata.added, setdata.removed\n", expect='C13-SNAP'),
     dict(id='C13-m1', file='pony/orm/core.py', fn='Entity._delete_', old='is_recursive_call = undo_funcs is not None', new='is_recursive_call = bool(undo_funcs)', expect='C13-NONE'),
     dict(id='C13-m2', file='pony/orm/core.py', fn='Entity._delete_', old='        if not is_recursive_call: undo_funcs = []', new='        undo_funcs = undo_funcs or []', expect='C13-NONE'),
